@@ -81,6 +81,11 @@ type G struct {
 	fwdSeq   int
 	open     []string
 	noChunk  bool
+	// noMarkNext suppresses a marker on the next value only (noMarkThis while that value is drawn)
+	noMarkNext bool
+	noMarkThis bool
+	noRefNext  bool
+	noRefThis  bool
 }
 
 type recType struct {
@@ -264,6 +269,9 @@ func (g *G) maybeMarker(c ctxKind, leafKeyable bool) int {
 	if !g.o.Markers || !g.chance("mark", g.mk(7)) {
 		return -1
 	}
+	if g.noMarkThis {
+		return -1
+	}
 	if len(g.open) > 0 && g.avoid("S36-marker-inside-marked-container") {
 		return -1
 	}
@@ -355,7 +363,7 @@ func (g *G) keyValue(recordType bool, forceUnique bool) string {
 	}
 	// references / markers in key position
 	if g.o.Markers && !recordType {
-		if g.chance("key.ref", g.mk(10)) {
+		if g.chance("key.ref", g.mk(10)) && !g.avoid("S35-key-reference") {
 			var cands []markerInfo
 			for _, m := range g.markers {
 				if m.keyable {
@@ -476,8 +484,13 @@ func (g *G) intEvent(v *big.Int, allowNegZero bool) {
 // value emits one value (possibly a container) valid in the given context.
 func (g *G) value(c ctxKind, depth int) {
 	g.budget--
+	g.noMarkThis = g.noMarkNext
+	g.noMarkNext = false
+	g.noRefThis = g.noRefNext
+	g.noRefNext = false
+	defer func() { g.noMarkThis, g.noRefThis = false, false }()
 	// references
-	if g.o.Markers && c != ctxNonNull && g.chance("val.ref", g.mk(9)) {
+	if g.o.Markers && c != ctxNonNull && !g.noRefThis && g.chance("val.ref", g.mk(9)) {
 		if len(g.markers) > 0 && rapid.Bool().Draw(g.t, "val.refback") {
 			// backward reference to a completed marker: every entry in g.markers whose object is complete.
 			var cands []markerInfo
@@ -499,7 +512,7 @@ func (g *G) value(c ctxKind, depth int) {
 		}
 	}
 	// opportunistically place a pending forward-reference target
-	if len(g.pending) > 0 && c != ctxKey && g.chance("val.placefwd", 3) && !(len(g.open) > 0 && g.avoid("S36-marker-inside-marked-container")) {
+	if len(g.pending) > 0 && c != ctxKey && !g.noMarkThis && g.chance("val.placefwd", 3) && !(len(g.open) > 0 && g.avoid("S36-marker-inside-marked-container")) {
 		p := g.pending[0]
 		g.pending = g.pending[1:]
 		g.emit(ev.Event{K: ev.Marker, Bs: []byte(p.id)})
@@ -578,10 +591,13 @@ func (g *G) container(c ctxKind, depth int) {
 		g.withMarker(func() {
 			g.emit(ev.Event{K: ev.Node})
 			g.pseudo("nv")
+			g.noMarkNext = g.avoid("S59-marked-node-value")
+			g.noRefNext = g.avoid("S34-reference-in-node")
 			g.value(ctxAny, depth+1)
 			n := g.intn("node.n", 0, 3)
 			for i := 0; i < n && g.budget > 0; i++ {
 				g.pseudo("nc")
+				g.noRefNext = g.avoid("S34-reference-in-node")
 				g.value(ctxAny, depth+1)
 			}
 			g.pseudo("ne")
